@@ -150,6 +150,10 @@ def get_type_graph(t: type) -> graphlib.TopologicalSorter[TypeNode]:
                 if module in (None, "__main__") and rest:
                     module = rest[0]
                 is_class = inspect.isclass(child)
+                # The qualified name of a nested class starts with its enclosing
+                #   class, not with a module.
+                if is_class and rest:
+                    refname, module = qualname, child.__module__
                 ref = refs.forwardref(
                     refname, is_argument=is_argument, module=module, is_class=is_class
                 )
